@@ -118,7 +118,11 @@ def d2_kmesh(chk, repo, q, count_txt, forward):
                     bases = strip_stores(v.ctx, t)
                     # the list object that reaches the keyword is the one created by this statement
                     lst = v.term(st.value, at=st)
-                    if isinstance(_name_of_kw(v, kw, ret), str) and _name_of_kw(v, kw, ret) == nm:
+                    try:
+                        same = v.eq(local_term(v, nm, ret), t)      # the value of that list when the mesh is built
+                    except AnalysisError:
+                        same = False
+                    if same:
                         role[nm] = kw
     chk.ob(f"{q}::lists-feed-constructor", set(role.values()) == {"p1", "p2", "n"}, "C11.D2",
            f"the per-axis lists must feed p1, p2 and n of the k-mesh; found {role}", v.f, ret)
